@@ -935,7 +935,8 @@ class Builder:
 
             branch = ICmd(
                 instruction=GenericInstr.BLT,
-                operands=[cond_operand, condition.value, Label(exit_label)],
+                # exit if value <= max, i.e. if value < max + 1
+                operands=[cond_operand, condition.value + 1, Label(exit_label)],
             )
             if_start.append(branch)
             commands = if_start
